@@ -71,7 +71,7 @@ PathVocab(d) ==
   \cup {<<Seg("INDEX", k1), Seg("KEY", k2)>> : k1 \in {"0", "1"}, k2 \in StrKeysOf(d) \cup {"zz"}}
   \cup {<<Seg("KEY", "zz"), Seg("KEY", "y"), Seg("INDEX", "1")>>, <<Seg("KEY", "zz"), Seg("INDEX", "1"), Seg("KEY", "y")>>,
         <<Seg("MATCH_ALL", ""), Seg("INDEX", "0")>>, <<Seg("TRAVERSE", ""), Seg("KEY", "a")>>}
-Values == {S("int", "7"), S("str", "zz")}
+Values == {S("int", "7"), S("str", "zz"), S("float", "2.5"), S("bool", "true")}
 Events(d) == {[op |-> "set_must", segs |-> p, t |-> x.t, v |-> x.v] : p \in PathVocab(d), x \in Values}
              \cup {[op |-> "set_opt", segs |-> p, t |-> "str", v |-> "zz"] : p \in {q \in PathVocab(d) : Straight(q)}}
              \cup {[op |-> "delete", segs |-> p, t |-> "", v |-> ""] : p \in PathVocab(d)}
